@@ -74,7 +74,7 @@ def mixcase(rng, s):
 
 
 def gen_schema(rng, handlers=False, max_types=5, section_dts=("zcv.dt.wrap",),
-               value_dts=None, allow_required_defaults=False, keytypes=None):
+               value_dts=None, allow_required_defaults=False, keytypes=None, derive_bias=0.3):
     """-> AST dict (see module docstring of zcv.refload for the reading of it)."""
     value_dts = value_dts or KEY_DATATYPES
     keytypes = keytypes or KEYTYPES
@@ -100,13 +100,16 @@ def gen_schema(rng, handlers=False, max_types=5, section_dts=("zcv.dt.wrap",),
         t = {"name": "t%d" % (i + 1), "keytype": None, "datatype": None, "implements": None,
              "extends": None, "items": []}
         base = None
-        if ast["types"] and rng.random() < 0.3:
+        if ast["types"] and rng.random() < derive_bias:
             cand = [b for b in ast["types"] if info[b["name"]]["chain"] < 3]
+            withwild = [b for b in cand if info[b["name"]]["haswild"]]
+            if withwild and derive_bias > 0.3:
+                cand = withwild + cand[:1]
             if cand:
                 base = rng.choice(cand)
                 t["extends"] = mixcase(rng, base["name"])
         kt = info[base["name"]]["kt"] if base else "basic-key"
-        if rng.random() < 0.3:
+        if rng.random() < (0.3 if base is None else derive_bias):
             newkt = rng.choice(keytypes)
             if base is None or (info[base["name"]]["plain"] and _rekeyable(info[base["name"]]["wildkeys"], newkt)):
                 t["keytype"] = newkt
@@ -355,7 +358,12 @@ def render_schema(ast, root="schema"):
              ("extends", ast.get("extends_urls"))]
     lines = ["<%s%s>" % (root, _attrs(pairs))]
     for p in ast.get("imports", []):
-        lines.append("  <import package=%s/>" % quoteattr(p))
+        if isinstance(p, (list, tuple)):
+            lines.append("  <import package=%s file=%s/>" % (quoteattr(p[0]), quoteattr(p[1])))
+        else:
+            lines.append("  <import package=%s/>" % quoteattr(p))
+    for src in ast.get("import_srcs", []):
+        lines.append("  <import src=%s/>" % quoteattr(src))
     for a in ast.get("abstract", []):
         lines.append("  <abstracttype name=%s/>" % quoteattr(a))
     for t in ast.get("types", []):
